@@ -4,6 +4,7 @@ package keeper_test
 
 import (
 	"fmt"
+	"strings"
 	"testing"
 	"time"
 
@@ -73,6 +74,66 @@ func TestVerifScenario_C18_same_block_overwrite(t *testing.T) {
 		return
 	}
 	fmt.Println("SCENARIO-OK both notifications listed")
+}
+
+// C18: a sender the recipient has blocked must not deliver, however it spells its own address. bech32 decoding accepts
+// the all-upper-case spelling of an address (same account, same signature), so the message passes ValidateBasic and
+// GetSigners names the blocked account.
+func TestVerifScenario_C18_blocked_sender_upper_case(t *testing.T) {
+	k, ctx := nSetup(t)
+	ms := keeper.NewMsgServerImpl(*k)
+	a, b := nAddr(1), nAddr(2)
+	if _, err := ms.BlockSenders(sdk.WrapSDKContext(ctx), &types.MsgBlockSenders{Creator: a.String(), ToBlock: []string{b.String()}}); err != nil {
+		fmt.Println("SCENARIO-ERROR", err)
+		return
+	}
+	if _, err := ms.CreateNotification(sdk.WrapSDKContext(ctx), &types.MsgCreateNotification{Creator: b.String(), To: a.String(), Contents: `{"n":0}`}); err == nil {
+		fmt.Println("SCENARIO-ERROR the block is not even effective for the plain spelling")
+		return
+	}
+	msg := &types.MsgCreateNotification{Creator: strings.ToUpper(b.String()), To: a.String(), Contents: `{"n":1}`}
+	if err := msg.ValidateBasic(); err != nil {
+		fmt.Println("SCENARIO-OK upper-case spelling refused by ValidateBasic:", err)
+		return
+	}
+	signers := msg.GetSigners()
+	if len(signers) != 1 || !signers[0].Equals(b) {
+		fmt.Println("SCENARIO-ERROR the upper-case spelling does not name the blocked account")
+		return
+	}
+	if _, err := ms.CreateNotification(sdk.WrapSDKContext(ctx), msg); err != nil {
+		fmt.Println("SCENARIO-OK blocked sender refused under the upper-case spelling:", err)
+		return
+	}
+	inbox := k.GetAllNotificationsByAddress(ctx, a.String())
+	n := 0
+	for _, e := range inbox {
+		if e.Contents == `{"n":1}` {
+			n++
+		}
+	}
+	fmt.Printf("SCENARIO-VIOLATION %s blocked %s; the same account, signing as %s, delivered: %d notification(s) from it in the inbox\n", a, b, msg.Creator, n)
+}
+
+// C18: a block placed by a recipient that spells its own address in upper case must be effective.
+func TestVerifScenario_C18_blocker_upper_case(t *testing.T) {
+	k, ctx := nSetup(t)
+	ms := keeper.NewMsgServerImpl(*k)
+	a, b := nAddr(1), nAddr(2)
+	bm := &types.MsgBlockSenders{Creator: strings.ToUpper(a.String()), ToBlock: []string{b.String()}}
+	if err := bm.ValidateBasic(); err != nil {
+		fmt.Println("SCENARIO-OK upper-case spelling refused by ValidateBasic:", err)
+		return
+	}
+	if _, err := ms.BlockSenders(sdk.WrapSDKContext(ctx), bm); err != nil {
+		fmt.Println("SCENARIO-OK", err)
+		return
+	}
+	if _, err := ms.CreateNotification(sdk.WrapSDKContext(ctx), &types.MsgCreateNotification{Creator: b.String(), To: a.String(), Contents: `{"n":2}`}); err != nil {
+		fmt.Println("SCENARIO-OK blocked sender refused:", err)
+		return
+	}
+	fmt.Printf("SCENARIO-VIOLATION account %s (signing as %s) blocked %s, which still delivered\n", a, bm.Creator, b)
 }
 
 // C19: exporting and importing must preserve the block lists.
